@@ -10,6 +10,7 @@ package props
 // uploaded (never against the receiver's internal tables).
 
 import (
+	"bytes"
 	"context"
 	"fmt"
 	"net/http"
@@ -38,6 +39,9 @@ type c17Op struct {
 	Kind string `json:"kind"` // up | restart
 	recvUpload
 	Fault string `json:"fault,omitempty"` // the injected fault this delivery realises: loss | dup | reorder | late | gap
+	// Slow > 0 (media uploads): the request reaches the handler now, its body only after Slow further operations
+	// (other uploads, also of the same track, are handled in between: a slow connection)
+	Slow int `json:"slow,omitempty"`
 }
 
 type C17 struct{}
@@ -216,7 +220,7 @@ func (C17) Gen(rng *core.Rng, tier string, idx int) *core.Scenario {
 
 	// ---- sampled: per-track sender programs, perturbed by the enabled disturbance kinds, then merged.
 	// Half of the scenarios enable exactly one kind (so that a violation's cause is unambiguous), some none.
-	kinds := []string{"loss", "dup", "reorder", "late", "restart", "skew", "earlymedia"}
+	kinds := []string{"loss", "dup", "reorder", "late", "restart", "skew", "earlymedia", "slow"}
 	on := map[string]bool{}
 	switch x := rng.Intn(100); {
 	case x < 12:
@@ -264,6 +268,9 @@ func (C17) Gen(rng *core.Rng, tier string, idx int) *core.Scenario {
 				prev.Fault = "reorder"
 				slots[t][i-1] = []c17Op{o}
 				o = prev
+			}
+			if on["slow"] && o.Fault == "" && rng.Chance(0.15) { // the request arrives now, its body a few operations later
+				o.Slow = rng.Range(1, 2*nTr+2)
 			}
 			slots[t][i] = append(slots[t][i], o)
 			if rng.Chance(dupP) {
@@ -428,6 +435,7 @@ type c17TrackState struct {
 	firstAny   int            // step of the first delivery of any kind (-1 = none)
 	lastStored int64          // number under which the most recent acknowledged upload was found stored (-1 = none)
 	sinceBoot  bool           // has uploaded since the last restart
+	lateSlow   bool           // a slow upload of this track completed after newer segments of the track
 }
 
 type c17Run struct {
@@ -457,6 +465,10 @@ type c17Run struct {
 	segMS     int64
 	lastMPD   *recvMPD
 	ino       *c17Inotify
+	pending   []*c17Pending // slow uploads whose body has not arrived yet
+	slowDone  bool
+	// slowOverStart: an upload was in flight across the channel start
+	slowOverStart bool
 	// after a restart a non-video track delivered media before any video track did (the receiver then takes
 	// that track as master until the video returns)
 	nonVideoFirst bool
@@ -541,6 +553,10 @@ func c17RunInBubble(w *c17World, ops []c17Op, dir string, res *core.Result) {
 		r.step++
 		switch op.Kind {
 		case "restart":
+			if !r.releaseDue(true) { // the connections end with the process: the bodies arrive first
+				blocked = true
+				break
+			}
 			res.Count("fault.restart")
 			res.Event("restart")
 			ri.Stop()
@@ -561,7 +577,13 @@ func c17RunInBubble(w *c17World, ops []c17Op, dir string, res *core.Result) {
 				continue
 			}
 			blocked = !r.deliver(ri, op)
+			if !blocked && !r.releaseDue(false) {
+				blocked = true
+			}
 		}
+	}
+	if !blocked && !r.releaseDue(true) {
+		blocked = true
 	}
 	if !blocked {
 		r.observe("", true)
@@ -587,6 +609,18 @@ func (r *c17Run) deliver(ri *recvInst, op c17Op) bool {
 	if ts.firstAny < 0 {
 		ts.firstAny = r.step
 	}
+	if op.Slow > 0 && !op.Init {
+		p := &c17Pending{op: op, body: body, hold: op.Slow, gate: make(chan struct{}), beforeStart: !r.started}
+		go func() {
+			p.resp = ri.DoReader(method, path, &gatedBody{gate: p.gate, rd: bytes.NewReader(body)}, hdr)
+			p.done = true
+		}()
+		synctest.Wait()
+		r.pending = append(r.pending, p)
+		res.Count("fault.slow-upload")
+		res.Event("up %s started (body %d operations later)", op.recvUpload, op.Slow)
+		return true
+	}
 	var resp *hx.Resp
 	done := false
 	go func() {
@@ -599,6 +633,57 @@ func (r *c17Run) deliver(ri *recvInst, op c17Op) bool {
 			"%s: the handler did not return (durably blocked)", op.recvUpload)
 		return false
 	}
+	return r.completed(op, ts, body, resp)
+}
+
+// c17Pending is a slow upload whose body has not arrived yet.
+type c17Pending struct {
+	op   c17Op
+	body []byte
+	hold int
+	gate chan struct{}
+	resp *hx.Resp
+	done bool
+	// beforeStart: the request reached the handler before the channel had started (manifest.mpd not yet written)
+	beforeStart bool
+}
+
+// releaseDue lets the bodies of the slow uploads arrive whose hold has run out (all of them if all is set).
+// It returns false when a handler did not return.
+func (r *c17Run) releaseDue(all bool) bool {
+	var keep []*c17Pending
+	ok := true
+	for _, p := range r.pending {
+		if !all {
+			p.hold--
+		}
+		if !all && p.hold > 0 {
+			keep = append(keep, p)
+			continue
+		}
+		close(p.gate)
+		synctest.Wait()
+		if !p.done {
+			r.res.Violate("C17.keeps-processing", merge(r.feat, core.Sig("kind", "handler-blocked", "upload", "media-slow")),
+				"%s: the handler did not return after the body had arrived", p.op.recvUpload)
+			ok = false
+			continue
+		}
+		r.slowDone = true
+		if p.beforeStart && r.started {
+			r.slowOverStart = true // its body arrived after the channel start (possibly with shifted numbers)
+		}
+		if !r.completed(p.op, r.tracks[p.op.Tr], p.body, p.resp) {
+			ok = false
+		}
+	}
+	r.pending = keep
+	return ok
+}
+
+// completed evaluates an upload whose handler has returned.
+func (r *c17Run) completed(op c17Op, ts *c17TrackState, body []byte, resp *hx.Resp) bool {
+	res := r.res
 	res.Event("up %s -> %d", op.recvUpload, resp.Status)
 	if resp.Panic != "" {
 		res.Violate("C17.keeps-processing", merge(r.feat, core.Sig("kind", "handler-panic", "frame", resp.PanicFrame, "upload", c17Kind(op))),
@@ -619,6 +704,9 @@ func (r *c17Run) deliver(ri *recvInst, op c17Op) bool {
 		panic("harness: cannot parse the uploaded segment: " + sm.Err)
 	}
 	nr := int64(sm.Seq) - int64(r.ch.StartNr)
+	if op.Slow > 0 && nr < ts.maxNr {
+		ts.lateSlow = true
+	}
 	if nr < ts.maxNr {
 		ts.outOfOrder = true
 		res.Count("probe.out-of-order-delivery")
@@ -812,6 +900,9 @@ func (r *c17Run) disturbances() string {
 	if r.skewSeen {
 		d = append(d, "tracks-apart")
 	}
+	if r.slowDone || len(r.pending) > 0 {
+		d = append(d, "slow-upload")
+	}
 	for _, ts := range r.tracks {
 		if ts.outOfOrder {
 			d = append(d, "reorder")
@@ -829,7 +920,11 @@ func (r *c17Run) disturbances() string {
 }
 
 func (r *c17Run) sig(kv ...string) map[string]string {
-	return merge(core.Sig(kv...), core.Sig("disturbances", r.disturbances()))
+	m := merge(core.Sig(kv...), core.Sig("disturbances", r.disturbances()))
+	if r.slowOverStart {
+		m["upload-in-flight-across-channel-start"] = "true"
+	}
+	return m
 }
 
 // observe looks at storage and the published MPDs after a delivery (or restart) and evaluates the
@@ -894,7 +989,7 @@ func (r *c17Run) observe(track string, full bool) {
 			continue
 		}
 		if int64(len(nrs)) > r.bound {
-			res.Violate("C17.within-window", r.sig("kind", "stored-count"),
+			res.Violate("C17.within-window", r.sig("kind", "stored-count", "overtaken-slow-upload-of-track", fmt.Sprint(ts.lateSlow)),
 				"track %s stores %d segments %v > bound %d (tsbd %d s, segment %d ms) after step %d", trn, len(nrs), nrs,
 				r.bound, r.w.tsbdOf(r.ch), r.segMS, r.step)
 		}
@@ -1142,7 +1237,7 @@ func (r *c17Run) liveness(ops []c17Op) {
 		seen := map[string]bool{}
 		okBlk := true
 		for _, op := range blk {
-			if op.Kind != "up" || op.Init || op.Fault != "" || seen[op.Tr] || op.Idx != blk[0].Idx || r.tracks[op.Tr] == nil {
+			if op.Kind != "up" || op.Init || op.Fault != "" || op.Slow > 0 || seen[op.Tr] || op.Idx != blk[0].Idx || r.tracks[op.Tr] == nil {
 				okBlk = false
 				break
 			}
